@@ -428,3 +428,6 @@ def check(ctx):
             ctx.ob("C20.R-step", "three.started-set-true", sets == [True], where=b.where(), expected="started = true exactly once", found=sets)
         except LookupError as e:
             ctx.lost("C20.R-step", "three.next", str(e))
+    if ctx.tier == "thorough":
+        from rules import witness
+        witness.check(ctx, ['W14'])   # informational: what external crates cannot reach (scope of the who-may-write census)
